@@ -5,6 +5,7 @@ package raftlogsim
 
 import (
 	"context"
+	"encoding/json"
 	"fmt"
 	"math"
 	"math/rand/v2"
@@ -94,6 +95,9 @@ func drawCfg(r *simkit.Run) config {
 	c.NoFaults = tp.Intn(4) == 0
 	c.Torn = tp.Intn(2) == 1
 	c.Diverged = tp.Intn(4) == 3
+	if os.Getenv("RLS_NO_DIVERGED_INSTALL") != "" {
+		c.Diverged = false // development knob: mute the install-over-diverged-log scenario
+	}
 	// 64 KiB never fills in these histories (no flush except at recovery);
 	// the small sizes force flushes, WAL rotation and compactions mid-history.
 	c.MemTable = []uint64{64 << 10, 16 << 10, 4 << 10, 8 << 10}[tp.Intn(4)]
@@ -103,11 +107,14 @@ func drawCfg(r *simkit.Run) config {
 	c.BigData = tp.Intn(4) == 3
 	c.ConfBias = []int{6, 3, 12}[tp.Intn(3)]
 	c.WOverwrite = 1 + tp.Intn(4)
-	c.WCompact = 1 + tp.Intn(4)
+	c.WCompact = 2 + tp.Intn(5)
 	c.WInstall = tp.Intn(3)
-	c.WReplace = tp.Intn(2)
+	c.WReplace = tp.Intn(3)
 	c.ConcBias = 1 + tp.Intn(4)
-	c.ChunkFail = !c.NoFaults && tp.Intn(3) == 2
+	// every draw is made whatever NoFaults says, so that the minimiser can zero
+	// the NoFaults choice without shifting the rest of the tape
+	chunkFail := tp.Intn(3) == 2
+	c.ChunkFail = !c.NoFaults && chunkFail
 	c.MaxVerifs = 160
 	if r.Tier == "thorough" {
 		c.MaxVerifs = 600
@@ -146,9 +153,11 @@ func mkCand(ref *refState, tag string) *cand { return &cand{ref: ref, exp: ref.e
 
 type capture struct {
 	label         string
+	anchor        bool // made by the foreground commit path itself (WAL, chunk file, step boundary)
 	c0, c50, c100 *vfs.MemFS
 	dir           *dirTree
 	done          []bool
+	outcome       map[int][]string // p -> candidate tag matched per scope, once reopened
 }
 
 // stepPlan is what a tracked section allows a crash inside it to leave behind.
@@ -178,6 +187,7 @@ type world struct {
 	tracking   bool
 	caps       []*capture
 	capsDrop   int
+	capsSampled int
 	stepDone   []bool
 	fsOps      int
 	walSyncs   int
@@ -194,7 +204,34 @@ type world struct {
 	hard     bool // a snapshot save or conflicting overwrite succeeded
 	witness  bool // crash clone compared, reopen, or group batch
 	crashed  int
+	// crashStep: the history will continue on a crash clone of the current step
+	crashStep bool
 }
+
+// skipCrashVerify is set only while the kernel minimises a replay whose
+// violation class is not a crash class: the per-crash-point reopen comparisons
+// (nine tenths of a run's cost) cannot produce that class, so they are skipped
+// to let the minimiser try many more tapes. Crashes the history continues on
+// are still taken and checked, so the tape keeps its meaning; the minimised
+// tape is confirmed afterwards by a normal replay in a fresh process.
+var skipCrashVerify = func() bool {
+	if os.Getenv("VERIF_MODE") != "minimise" {
+		return false
+	}
+	b, err := os.ReadFile(os.Getenv("VERIF_REPLAY"))
+	if err != nil {
+		return false
+	}
+	var rf struct {
+		Expect struct {
+			Class string `json:"class"`
+		} `json:"expect"`
+	}
+	if json.Unmarshal(b, &rf) != nil || rf.Expect.Class == "" {
+		return false
+	}
+	return !strings.HasPrefix(rf.Expect.Class, "crash")
+}()
 
 type quietLogger struct{}
 
@@ -268,6 +305,9 @@ func (w *world) teardown() {
 			}
 		}
 		fmt.Fprintf(os.Stderr, "DEBUG fsops=%d walsyncs=%d sst=%d verifs=%d\n", w.fsOps, w.walSyncs, w.sstCreates, w.verifs)
+		for _, l := range w.r.Trace() {
+			fmt.Fprintf(os.Stderr, "TRACE %s\n", l)
+		}
 	}
 	if w.db != nil {
 		_ = w.db.Close()
@@ -312,17 +352,26 @@ func (w *world) onFSOp(kind, name string) {
 	}
 }
 
-const maxCapsPerStep = 96
+const (
+	maxCapsPerStep = 300
+	boundaryLabel  = "step boundary"
+)
 
 func (w *world) captureLocked(label string) {
-	if w.cfg.NoFaults {
+	if w.cfg.NoFaults || (skipCrashVerify && !w.crashStep) {
 		return
 	}
-	if len(w.caps) >= maxCapsPerStep {
+	// anchors are always kept: the continuing crash is chosen among them
+	anchor := label == boundaryLabel || strings.HasSuffix(label, ".log") || strings.Contains(label, " chunk ")
+	if !anchor && (len(w.caps) >= maxCapsPerStep || w.verifs >= 2*w.cfg.MaxVerifs) {
 		w.capsDrop++
 		return
 	}
-	cp := &capture{label: label, done: append([]bool(nil), w.stepDone...)}
+	if !w.cfg.Short && !anchor && w.rng.IntN(3) != 0 {
+		w.capsSampled++ // long histories sample the crash points of background work
+		return
+	}
+	cp := &capture{label: label, anchor: anchor, done: append([]bool(nil), w.stepDone...)}
 	cp.c0 = w.liveFS.CrashClone(vfs.CrashCloneCfg{})
 	cp.c100 = w.liveFS.CrashClone(vfs.CrashCloneCfg{UnsyncedDataPercent: 100, RNG: w.rng})
 	if w.cfg.Torn {
@@ -361,6 +410,9 @@ func (w *world) chunkWrite(path string, data []byte) error {
 
 func (w *world) begin(sp *stepPlan) {
 	w.mu.Lock()
+	if sp.name != "mutation" {
+		w.crashStep = false
+	}
 	w.caps = nil
 	w.capsDrop = 0
 	w.stepDone = make([]bool, len(w.scopes))
@@ -370,14 +422,14 @@ func (w *world) begin(sp *stepPlan) {
 
 func (w *world) end() []*capture {
 	synctest.Wait()
-	w.capture("step boundary")
+	w.capture(boundaryLabel)
 	w.mu.Lock()
 	w.tracking = false
 	caps := w.caps
 	w.caps = nil
-	if w.capsDrop > 0 {
-		w.r.ProbeN("crash_points_dropped_over_cap", w.capsDrop)
-	}
+	w.r.ProbeN("crash_points_dropped_over_cap", w.capsDrop)
+	w.r.ProbeN("crash_points_not_sampled_long_history", w.capsSampled)
+	w.capsDrop, w.capsSampled = 0, 0
 	w.mu.Unlock()
 	return caps
 }
@@ -499,7 +551,7 @@ func (w *world) mutationStep(step, n int) {
 		r.Logf("step %d %s: %s", step, w.names[si], muts[k].desc)
 	}
 	armed := false
-	if w.cfg.ChunkFail && tp.Chance(1, 4) {
+	if armDraw := tp.Chance(1, 4); w.cfg.ChunkFail && armDraw {
 		for _, m := range muts {
 			if m.st.Snapshot != nil && m.kind == mSave || m.kind == mReplace {
 				armed = true
@@ -512,14 +564,19 @@ func (w *world) mutationStep(step, n int) {
 			r.Logf("step %d arm snapshot chunk write failure", step)
 		}
 	}
-	crash := !w.cfg.NoFaults && tp.Chance(1, 6)
-	crashSel, crashP := 0, 0
-	if crash {
-		crashSel = tp.Intn(1 << 16)
-		crashP = tp.Intn(2) // 0: power loss (p=0), 1: process kill (p=100)
+	crashDraw := tp.Chance(1, 6)
+	crash := !w.cfg.NoFaults && crashDraw
+	crashP := 0
+	crashWant := make([]bool, len(w.scopes))
+	if crashDraw {
+		crashP = tp.Intn(2) // preference 0: power loss (p=0), 1: process kill (p=100)
+		for _, si := range sis {
+			crashWant[si] = tp.Intn(2) == 1 // should the in-flight mutation survive the crash?
+		}
 	}
 	syncs0 := w.walSyncs
 	errs := make([]error, len(sis))
+	w.crashStep = crash
 	w.begin(sp)
 	var wg sync.WaitGroup
 	for k := range sis {
@@ -600,8 +657,10 @@ func (w *world) mutationStep(step, n int) {
 		return
 	}
 	if crash && len(caps) > 0 {
-		cp := caps[crashSel%len(caps)]
-		w.crashTo(step, cp, crashP, sp)
+		cp, v := w.pickCrash(caps, sp, crashWant, crashP)
+		if cp != nil {
+			w.crashTo(step, cp, v, sp)
+		}
 	}
 }
 
@@ -712,7 +771,7 @@ func (cp *capture) variants() []variant {
 }
 
 func (w *world) verifyCaps(caps []*capture, sp *stepPlan) {
-	if w.cfg.NoFaults || len(caps) == 0 {
+	if w.cfg.NoFaults || len(caps) == 0 || skipCrashVerify {
 		return
 	}
 	w.r.ProbeN("crash_points_captured", len(caps))
@@ -721,7 +780,7 @@ func (w *world) verifyCaps(caps []*capture, sp *stepPlan) {
 			if w.r.Failed() || w.r.InfraErr != "" {
 				return
 			}
-			w.verifyOne(cp, v, sp)
+			w.verifyOne(cp, v, sp, false)
 		}
 	}
 }
@@ -735,30 +794,39 @@ func candSig(cs []*cand) string {
 	return sb.String()
 }
 
-func (w *world) verifyOne(cp *capture, v variant, sp *stepPlan) {
+// verifyOne reopens one crash clone and compares every scope with the states
+// the crash may leave. force bypasses de-duplication and the budget (used when
+// the history is about to continue on that clone). It returns the matched
+// candidate tag per scope, or nil when the clone was skipped or rejected.
+func (w *world) verifyOne(cp *capture, v variant, sp *stepPlan, force bool) []string {
 	r := w.r
+	if tags, ok := cp.outcome[v.p]; ok {
+		return tags
+	}
 	key := fsSig(v.fs, "/") ^ (cp.dir.sig() * 1099511628211)
 	for si := range w.scopes {
 		key = key*31 + strHash(candSig(sp.candidates(cp, si)))
 	}
-	if w.seen[key] {
-		r.Probe("crash_points_identical_state_skipped")
-		return
-	}
-	w.seen[key] = true
-	if w.verifs >= w.cfg.MaxVerifs {
-		// long history: sample one in four beyond the budget
-		if w.rng.IntN(4) != 0 {
-			r.Probe("crash_points_sampled_out")
-			return
+	if !force {
+		if w.seen[key] {
+			r.Probe("crash_points_identical_state_skipped")
+			return nil
+		}
+		if w.verifs >= w.cfg.MaxVerifs {
+			// beyond the budget: one in four, and nothing beyond twice the budget
+			if w.verifs >= 2*w.cfg.MaxVerifs || w.rng.IntN(4) != 0 {
+				r.Probe("crash_points_sampled_out")
+				return nil
+			}
 		}
 	}
+	w.seen[key] = true
 	w.verifs++
 	fs := v.fs.CrashClone(vfs.CrashCloneCfg{UnsyncedDataPercent: 100, RNG: w.rng})
 	dir := w.newTmpDir()
 	if err := cp.dir.materialise(dir); err != nil {
 		r.Infra("materialise snapshot dir: %v", err)
-		return
+		return nil
 	}
 	defer os.RemoveAll(dir)
 	db, err := w.open(fs, dir)
@@ -771,12 +839,12 @@ func (w *world) verifyOne(cp *capture, v variant, sp *stepPlan) {
 		if os.Getenv("RLS_DEBUG") != "" {
 			fmt.Fprintf(os.Stderr, "DEBUG torn reject at %q during %s: %v\n", cp.label, sp.name, err)
 		}
-		return
+		return nil
 	}
 	if err != nil {
 		r.FailSig("crash-open-failed", sp.name, fmt.Sprintf("Open failed after crash at %q (p=%d, during %s): %v", cp.label, v.p, sp.name, err),
 			map[string]any{"crash_point": cp.label, "p": v.p})
-		return
+		return nil
 	}
 	defer func() {
 		_ = db.Close()
@@ -786,20 +854,68 @@ func (w *world) verifyOne(cp *capture, v variant, sp *stepPlan) {
 	r.Probe(fmt.Sprintf("crash_reopen_p%d", v.p))
 	r.Fault(fmt.Sprintf("crash_clone_p%d", v.p))
 	w.witness = true
+	tags := make([]string, len(w.scopes))
 	for si := range w.scopes {
 		st := db.For(w.scopes[si])
 		m := w.matchScope(st, sp.candidates(cp, si), si, w.verifs+si)
 		if m == nil {
 			w.failCrash(cp, v, sp, si, st)
-			return
+			return nil
 		}
+		tags[si] = m.tag
 		if sp.in[si] && sp.after[si] != nil && !(si < len(cp.done) && cp.done[si]) {
 			r.Probe("crash_inflight_" + m.tag)
 		}
 		if !w.probeReads(st, m.ref, w.names[si], 2, w.rng.IntN, "crash-range-read") {
-			return
+			return nil
 		}
 	}
+	if cp.outcome == nil {
+		cp.outcome = map[int][]string{}
+	}
+	cp.outcome[v.p] = tags
+	return tags
+}
+
+// pickCrash chooses the crash the history continues on: the first anchor crash
+// point (WAL write/sync, snapshot chunk write, step boundary - the calls the
+// foreground commit itself makes, so their sequence does not depend on how
+// Pebble's background work interleaves) and the first of p=0 / p=100 whose
+// recovered state is the one the tape asked for (per in-flight mutation:
+// survives or not). Without such a crash point the step boundary is used.
+func (w *world) pickCrash(caps []*capture, sp *stepPlan, want []bool, pPref int) (*capture, variant) {
+	for _, cp := range caps {
+		if !cp.anchor {
+			continue
+		}
+		vs := []variant{{0, cp.c0}, {100, cp.c100}}
+		if pPref == 1 {
+			vs[0], vs[1] = vs[1], vs[0]
+		}
+		for _, v := range vs {
+			tags := w.verifyOne(cp, v, sp, true)
+			if w.r.Failed() || w.r.InfraErr != "" {
+				return nil, variant{}
+			}
+			if tags == nil {
+				continue
+			}
+			ok := true
+			for si := range w.scopes {
+				if !sp.in[si] {
+					continue
+				}
+				if (tags[si] != "current") != want[si] {
+					ok = false
+				}
+			}
+			if ok {
+				return cp, v
+			}
+		}
+	}
+	last := caps[len(caps)-1]
+	return last, variant{100, last.c100}
 }
 
 func strHash(s string) uint64 {
@@ -845,15 +961,10 @@ func (w *world) failCrash(cp *capture, v variant, sp *stepPlan, si int, st multi
 }
 
 // crashTo abandons the live DB and continues the history on a crash clone.
-func (w *world) crashTo(step int, cp *capture, psel int, orig *stepPlan) {
+// The history only continues on the bit-reproducible clones (p=0 / p=100);
+// torn clones are compared in verifyOne but never become the live disk.
+func (w *world) crashTo(step int, cp *capture, v variant, orig *stepPlan) {
 	r := w.r
-	vs := cp.variants()
-	v := vs[psel%len(vs)]
-	if v.p == 50 {
-		// the history only continues on the bit-reproducible clones (p=0 / p=100);
-		// torn clones are compared in verifyOne but never become the live disk
-		v = vs[0]
-	}
 	_ = w.db.Close() // against the abandoned file system
 	w.db = nil
 	synctest.Wait()
